@@ -51,6 +51,17 @@ mutate-after-copy experiments and the aliasing correspondence of the run to find
 theorem inPlace_matches_source : ∀ k : Kind, k.sourceArms.all k.armAgrees = true := by
   intro k; cases k <;> decide
 
+/-- For the four copying methods of gen.Array / gen.Object (`Simplify`, `Dup`) the member loop of the
+source stores, for EVERY member kind alike, the result of the dynamically dispatched recursive call
+(`m.Dup()`, `m.Simplify()`; nil for nil) — the model's discipline `forEach (conv k n _)`, under which
+`fresh_spec` gives every container of the result a cell of its own. A loop that duplicates some
+member kinds and stores the others as they are (e.g. `case Object: a[i] = tm.Dup(); default: a[i] = m`,
+which shares an Array that is a member of an Array) makes this stop checking. A tripwire over the
+shape of the loop, not a semantics of `m.Dup()`: that the dispatch lands in the modelled methods is
+for the aliasing correspondence of the run to show. -/
+theorem copy_elements_match_source : ∀ k : Kind, k.elemFns.all elemDisciplineAgrees = true := by
+  intro k; cases k <;> decide
+
 /-! ## value preservation -/
 
 /-- composition of a first conversion (any kind, described by its result) with a copying one -/
